@@ -150,7 +150,7 @@ fn all_states(shape: &Shape, origin: u8, misses: u32) -> Vec<[u32; 6]> {
     v
 }
 
-fn build(shape: &Shape, passed: Option<u32>, origin: u8, worst: bool, misses: Option<u32>, acc: f64, via_osu_map: Option<&rosu_pp::Beatmap>) -> Performance<'static> {
+fn build(shape: &Shape, passed: Option<u32>, origin: u8, worst: bool, misses: Option<u32>, acc: f64, via_osu_map: Option<&rosu_pp::Beatmap>, combo: Option<u32>) -> Performance<'static> {
     let mut d = Difficulty::new();
     match origin {
         1 => d = d.lazer(false),
@@ -186,6 +186,10 @@ fn build(shape: &Shape, passed: Option<u32>, origin: u8, worst: bool, misses: Op
     let mut p = Performance::new(shape.attrs()).difficulty(d).accuracy(acc);
     if let Some(m) = misses {
         p = p.misses(m);
+    }
+    // a reached combo is not a hit result: the closest distribution does not depend on it
+    if let Some(c) = combo {
+        p = p.combo(c);
     }
     if worst {
         p = p.hitresult_priority(HitResultPriority::WorstCase);
@@ -286,9 +290,14 @@ fn main() {
         let prios: u64 = if matches!(shape, Shape::Catch { .. }) { 1 } else { 2 };
         // miss options: unset, 0..=n, n+2
         let miss_opts = u64::from(n) + 3;
-        let total = origins * prios * miss_opts;
+        // a combo given next to the accuracy (catch and taiko: modes whose generation looks at counts that a combo could be
+        // confused with): unset, 0, 1, half the objects
+        let combos: Vec<Option<u32>> = if matches!(shape, Shape::Catch { .. } | Shape::Taiko { .. }) && via_map.is_none() { vec![None, Some(0), Some(1), Some(n / 2)] } else { vec![None] };
+        let total = origins * prios * miss_opts * combos.len() as u64;
         let name = if via_map.is_some() { format!("shape{si}/{shape:?}/osu-map-then-try_mode").replace(' ', "") } else if passed.is_some() { format!("shape{si}/{full:?}/passed_objects={}", n).replace(' ', "") } else { format!("shape{si}/{shape:?}").replace(' ', "") };
         ctx.universe(&name, total, |idx, l: &mut Local<'_>| {
+            let combo = combos[(idx % combos.len() as u64) as usize];
+            let idx = idx / combos.len() as u64;
             let origin = (idx % origins) as u8;
             let r = idx / origins;
             let worst = r % prios == 1;
@@ -325,11 +334,11 @@ fn main() {
             l.states(states.len() as u64);
             for t in targets {
                 let t = t.clamp(0.0, 100.0);
-                let g = build(full, passed, origin, worst, misses_arg, t, via_map.as_ref()).generate_state();
+                let g = build(full, passed, origin, worst, misses_arg, t, via_map.as_ref(), combo).generate_state();
                 let gs = slots(&g);
                 l.checked(1);
                 if g.misses != misses {
-                    l.violation("misses", || format!("attributes={full:?} passed_objects={passed:?} shape={shape:?} origin={origin} worst={worst} misses={misses_arg:?} target={t}\ngenerated state has {} misses, expected {misses}: {g:?}", g.misses));
+                    l.violation("misses", || format!("attributes={full:?} passed_objects={passed:?} combo={combo:?} shape={shape:?} origin={origin} worst={worst} misses={misses_arg:?} target={t}\ngenerated state has {} misses, expected {misses}: {g:?}", g.misses));
                     return;
                 }
                 let ga = frac(acc_frac(shape, origin, &gs));
@@ -349,7 +358,7 @@ fn main() {
                     let mode = mode.split(' ').next().unwrap_or("").to_lowercase();
                     l.violation(&format!("not_closest_{mode}"), || {
                         format!(
-                            "attributes={full:?} passed_objects={passed:?} shape={shape:?} origin={origin} (0 lazer, 1 stable, 2 classic) worst={worst} misses={misses_arg:?} target accuracy={t}%\ngenerated {g:?}\n accuracy {ga} at distance {gd}; a distribution with the same misses reaches distance {best}"
+                            "attributes={full:?} passed_objects={passed:?} combo={combo:?} shape={shape:?} origin={origin} (0 lazer, 1 stable, 2 classic) worst={worst} misses={misses_arg:?} target accuracy={t}%\ngenerated {g:?}\n accuracy {ga} at distance {gd}; a distribution with the same misses reaches distance {best}"
                         )
                     });
                     return;
